@@ -688,6 +688,10 @@ type c07Param struct {
 type c07PlumbCase struct {
 	Params  []c07Param `json:"params"`
 	CLIFont bool       `json:"cli_font"`
+	// Before: two earlier format() calls in the same file give every parameter
+	// explicitly for each of the two fonts; they must not influence the call
+	// under test
+	Before bool `json:"earlier_explicit_calls"`
 }
 
 func (pc *c07PlumbCase) String() string {
@@ -699,12 +703,16 @@ func (pc *c07PlumbCase) String() string {
 			ps = append(ps, p.Name)
 		}
 	}
-	return fmt.Sprintf("format(text%s) cliFont=%v", func() string {
+	s := fmt.Sprintf("format(text%s) cliFont=%v", func() string {
 		if len(ps) == 0 {
 			return ""
 		}
 		return ", " + strings.Join(ps, ", ")
 	}(), pc.CLIFont)
+	if pc.Before {
+		s += " after explicit calls"
+	}
+	return s
 }
 
 const formatTextFn = "(*github.com/huderlem/poryscript/parser.FontConfig).FormatText"
@@ -737,7 +745,11 @@ func c07PlumbRun(w *Worker, pc *c07PlumbCase, rep *Report) {
 			parts = append(parts, spelled)
 		}
 		atoms.Declare(c, nil)
-		src := "text T {\n  format(\"" + c07PlumbText + "\""
+		src := ""
+		if pc.Before {
+			src = "text T0 {\n  format(\"b b\", fontId=\"font1\", maxLineLength=7, numLines=5, cursorOverlapWidth=3)\n}\ntext T1 {\n  format(\"b b b\", \"font2\", 9, numLines=4, cursorOverlapWidth=2)\n}\n"
+		}
+		src += "text T {\n  format(\"" + c07PlumbText + "\""
 		if len(parts) > 0 {
 			src += ", " + strings.Join(parts, ", ")
 		}
@@ -880,8 +892,12 @@ func c07PlumbRun(w *Worker, pc *c07PlumbCase, rep *Report) {
 		}
 		f.Outputs = map[string]string{"compiled": resp.Out + resp.Err, "FormatText with the documented precedence": want.Out}
 		var gotText []string
+		inT := false
 		for _, l := range strings.Split(resp.Out, "\n") {
-			if strings.HasPrefix(l, "\t.string \"") {
+			if strings.HasSuffix(l, ":") {
+				inT = l == "T::"
+			}
+			if inT && strings.HasPrefix(l, "\t.string \"") {
 				gotText = append(gotText, strings.TrimSuffix(strings.TrimPrefix(l, "\t.string \""), "\""))
 			}
 		}
@@ -908,7 +924,7 @@ func c07PlumbCases() []*c07PlumbCase {
 	}
 	for _, f := range forms {
 		for _, cli := range []bool{false, true} {
-			res = append(res, &c07PlumbCase{Params: f, CLIFont: cli})
+			res = append(res, &c07PlumbCase{Params: f, CLIFont: cli}, &c07PlumbCase{Params: f, CLIFont: cli, Before: true})
 		}
 	}
 	return res
